@@ -184,6 +184,21 @@ func (x *fnExec) generate() {
 			o := x.obligation(r.st, c.Key+":post#"+cl.Label, "post", site, clauseTags(c, cl), goal, hyp, cl.Src)
 			o.skolems = sk
 			o.blk = r.blk
+			if hasTag(cl.Tags, "LEMMA") {
+				// a postcondition marked LEMMA is proved like any other and then serves as a hypothesis for the
+				// postconditions listed after it, at the same return site
+				vars2 := copyVars(fr.vars)
+				x.bindResults(vars2, fn, cl, r.val)
+				env2 := &specEnv{x: x, vars: vars2, cur: r.st, old: fr.entry, info: cl.Info}
+				nf, nq := len(x.facts), len(x.qfacts)
+				env2.assumeClause(cl, r.st)
+				for i := nf; i < len(x.facts); i++ {
+					x.facts[i].global = true
+				}
+				for i := nq; i < len(x.qfacts); i++ {
+					x.qfacts[i].global = true
+				}
+			}
 		}
 		if c.HasMod {
 			x.frameObligations(fr, r, site)
@@ -404,6 +419,161 @@ func candidates(roots []*Term) map[*Sort][]*Term {
 	return out
 }
 
+var termMu sync.Mutex
+
+// splitConds picks branch conditions to case-split on: the atoms of the merge conditions (ite guards) in the goal
+// that are not already part of the obligation's own path condition; atoms seen in both polarities come first.
+func splitConds(goal, hyp *Term) []*Term {
+	known := map[*Term]bool{}
+	var flat func(t *Term, f func(*Term))
+	flat = func(t *Term, f func(*Term)) {
+		if t.Op == "and" {
+			for _, a := range t.Args {
+				flat(a, f)
+			}
+			return
+		}
+		f(t)
+	}
+	flat(hyp, func(a *Term) {
+		if a.Op == "not" {
+			a = a.Args[0]
+		}
+		known[a] = true
+	})
+	pos := map[*Term]int{}
+	neg := map[*Term]int{}
+	direct := map[*Term]bool{}
+	Subterms([]*Term{goal}, func(t *Term) {
+		if t.Op != "ite" || containsBVar(t.Args[0]) {
+			return
+		}
+		if c := t.Args[0]; c.Op != "and" && c.Op != "not" && c.Op != "or" {
+			direct[c] = true
+		}
+		flat(t.Args[0], func(a *Term) {
+			if a.Op == "not" {
+				neg[a.Args[0]]++
+			} else if a.Op != "lit" && a != True && a != False {
+				pos[a]++
+			}
+		})
+	})
+	score := map[*Term]int{}
+	for a, n := range pos {
+		score[a] += n
+		if direct[a] {
+			score[a] += 2000
+		}
+	}
+	for a, n := range neg {
+		score[a] += n
+		if pos[a] > 0 {
+			score[a] += 1000
+		}
+	}
+	var out []*Term
+	for a := range score {
+		if !known[a] && a.Op != "or" {
+			out = append(out, a)
+		}
+	}
+	sort.Slice(out, func(i, j int) bool {
+		if score[out[i]] != score[out[j]] {
+			return score[out[i]] > score[out[j]]
+		}
+		return out[i].id < out[j].id
+	})
+	if len(out) > 4 {
+		out = out[:4]
+	}
+	return out
+}
+
+// selectIndices lists the bit-vector index terms of array reads in the given roots.
+func selectIndices(roots []*Term) []*Term {
+	var out []*Term
+	seen := map[int]bool{}
+	Subterms(roots, func(t *Term) {
+		if t.Op == "select" && t.Args[1].S.K == KBV && !seen[t.Args[1].id] && !containsBVar(t.Args[1]) {
+			seen[t.Args[1].id] = true
+			out = append(out, t.Args[1])
+		}
+	})
+	return out
+}
+
+// shiftedCandidates solves index patterns of the form X+v (X ground) in a quantified fact against the ground read
+// indices T of the goal: v := T-X. This finds the shifted instances (i+1, i-1, off+i) plain enumeration misses.
+func shiftedCandidates(q *QFact, v *Term, idx []*Term) []*Term {
+	var offs []*Term
+	seen := map[int]bool{}
+	Subterms([]*Term{q.body}, func(t *Term) {
+		if t.Op != "select" || t.Args[1].Op != "bvadd" || len(t.Args[1].Args) != 2 {
+			return
+		}
+		a, b := t.Args[1].Args[0], t.Args[1].Args[1]
+		if b == v && !containsBVar(a) && !seen[a.id] {
+			seen[a.id] = true
+			offs = append(offs, a)
+		}
+		if a == v && !containsBVar(b) && !seen[b.id] {
+			seen[b.id] = true
+			offs = append(offs, b)
+		}
+	})
+	var out []*Term
+	have := map[int]bool{}
+	add := func(c *Term) {
+		if !have[c.id] && len(out) < 24 {
+			have[c.id] = true
+			out = append(out, c)
+		}
+	}
+	// exact matches first: T = X+r gives v := r, T = (X+a)+b gives v := a+b
+	var rest func(t, x *Term) *Term
+	rest = func(t, x *Term) *Term {
+		if t.Op != "bvadd" || len(t.Args) != 2 {
+			return nil
+		}
+		a, b := t.Args[0], t.Args[1]
+		if a == x {
+			return b
+		}
+		if b == x {
+			return a
+		}
+		if r := rest(a, x); r != nil {
+			return BVBin("bvadd", r, b)
+		}
+		if r := rest(b, x); r != nil {
+			return BVBin("bvadd", a, r)
+		}
+		return nil
+	}
+	for _, x := range offs {
+		for _, t := range idx {
+			if t.S != v.S || t == x {
+				continue
+			}
+			if r := rest(t, x); r != nil {
+				add(r)
+			}
+		}
+	}
+	for _, x := range offs {
+		for _, t := range idx {
+			if t.S != v.S || t == x || len(out) >= 24 {
+				continue
+			}
+			if rest(t, x) == nil {
+				add(BVBin("bvsub", t, x))
+			}
+		}
+	}
+	return out
+}
+
 // heapSyms returns the heap-level symbols of a term: array-sorted constants and uninterpreted function names.
 var heapSymMemo = map[int]map[string]bool{}
 
@@ -475,7 +645,7 @@ func (x *fnExec) buildQuery(o *Obl, useQuant bool, exact bool) (smt string, getV
 	}
 	var allQ []*QFact
 	for _, q := range x.qfacts {
-		if q.seq < o.seq && (o.Smoke || x.canPrecede(x.blockAt(q.seq), ob)) {
+		if q.seq < o.seq && (o.Smoke || q.global || x.canPrecede(x.blockAt(q.seq), ob)) {
 			cs = append(cs, &cand{t: q.body, syms: heapSyms(Implies(q.pc, q.body)), q: q})
 		}
 	}
@@ -506,8 +676,22 @@ func (x *fnExec) buildQuery(o *Obl, useQuant bool, exact bool) (smt string, getV
 			ground = append(ground, c.t)
 		}
 	}
+	hypT, goalT := o.hyp, o.goal
+	if x.caseSub != nil {
+		// case split: everything is simplified under the assumed truth value of one merge condition
+		for i, g := range ground {
+			ground[i] = Subst(g, x.caseSub)
+		}
+		nq := make([]*QFact, len(allQ))
+		for i, q := range allQ {
+			nq[i] = &QFact{seq: q.seq, pc: Subst(q.pc, x.caseSub), vars: q.vars, body: Subst(q.body, x.caseSub), origin: q.origin, global: q.global}
+		}
+		allQ = nq
+		hypT = And(Subst(o.hyp, x.caseSub), x.caseAssert)
+		goalT = Subst(o.goal, x.caseSub)
+	}
 	roots = append(roots, ground...)
-	roots = append(roots, o.hyp, o.goal)
+	roots = append(roots, hypT, goalT)
 	// allocation distinctness for terms that occur
 	present := map[int]bool{}
 	Subterms(roots, func(t *Term) { present[t.id] = true })
@@ -524,21 +708,30 @@ func (x *fnExec) buildQuery(o *Obl, useQuant bool, exact bool) (smt string, getV
 		rounds := 2
 		if x.instLevel == 1 {
 			rounds = 1
-			cur = []*Term{o.goal}
+			cur = []*Term{goalT}
+		}
+		if x.instLevel == 3 {
+			// goal-directed: instances at the terms of the goal and its path condition, then at the terms those instances bring in
+			rounds = 3
+			cur = []*Term{goalT, hypT}
 		}
 		for round := 0; round < rounds; round++ {
 			// terms of the goal and its path condition first: the cap below then cuts the least relevant ones
-			seed := []*Term{o.goal, o.hyp}
+			seed := []*Term{goalT, hypT}
 			if x.instLevel == 1 {
-				seed = []*Term{o.goal}
+				seed = []*Term{goalT}
 			}
 			cands := candidates(append(append(seed, cur...), insts...))
+			selIdx := selectIndices(append(append([]*Term{}, seed...), insts...))
 			var newInsts []*Term
 			for _, q := range qf {
 				lists := make([][]*Term, len(q.vars))
 				total := 1
 				for i, v := range q.vars {
 					l := cands[v.S]
+					if sh := shiftedCandidates(q, v, selIdx); len(sh) > 0 {
+						l = append(append([]*Term{}, sh...), l...)
+					}
 					lim := 48
 					if len(q.vars) == 1 {
 						lim = 120
@@ -605,6 +798,9 @@ func (x *fnExec) buildQuery(o *Obl, useQuant bool, exact bool) (smt string, getV
 				break
 			}
 			insts = append(insts, newInsts...)
+			if os.Getenv("SCTPVC_DEBUG") != "" {
+				fmt.Fprintf(os.Stderr, "INST %s site=%s round=%d qfacts=%d new=%d total=%d\n", o.Name, o.Site, round, len(qf), len(newInsts), len(insts))
+			}
 			if len(insts) > 6000 {
 				break
 			}
@@ -638,8 +834,8 @@ func (x *fnExec) buildQuery(o *Obl, useQuant bool, exact bool) (smt string, getV
 			w.assert(Implies(q.pc, Forall(q.vars, q.body)))
 		}
 	}
-	w.assert(o.hyp)
-	w.assert(Not(o.goal))
+	w.assert(hypT)
+	w.assert(Not(goalT))
 	for k := 0; k < len(w.apps); k++ {
 		r := w.apps[k]
 		var op string
@@ -734,6 +930,7 @@ func (x *fnExec) discharge(cfg Config, filter func(o *Obl) bool) []*OblResult {
 			results[i] = siteResult{o, SolveResult{Status: "unsat", Backend: "trivial"}, 0}
 			continue
 		}
+		termMu.Lock()
 		x.instLevel = 2
 		smt, gv, nq, nop := x.buildQuery(o, false, false)
 		var staged []string
@@ -743,8 +940,10 @@ func (x *fnExec) discharge(cfg Config, filter func(o *Obl) bool) []*OblResult {
 			s0, _, _, _ := x.buildQuery(o, false, false)
 			x.instLevel = 1
 			s1, _, _, _ := x.buildQuery(o, false, false)
+			x.instLevel = 3
+			s3, _, _, _ := x.buildQuery(o, false, false)
 			x.instLevel = 2
-			staged = []string{s0, s1}
+			staged = []string{s0, s1, s3}
 		}
 		var smtExact string
 		if nop > 0 {
@@ -760,6 +959,7 @@ func (x *fnExec) discharge(cfg Config, filter func(o *Obl) bool) []*OblResult {
 			x.instLevel = 2
 			smtQ, _, _, _ = x.buildQuery(o, true, false)
 		}
+		termMu.Unlock()
 		wg.Add(1)
 		sem <- struct{}{}
 		go func() {
@@ -798,6 +998,77 @@ func (x *fnExec) discharge(cfg Config, filter func(o *Obl) bool) []*OblResult {
 				} else if r.Status == "sat" {
 					r.Status = "unknown"
 					r.Output = "sat only with opaque remainder (over-approximation)\n" + r.Output
+				}
+			}
+			if r.Status != "unsat" && r.Status != "sat" && !o.Smoke {
+				// case split on a merge condition of the goal: each half is simplified under the assumed value,
+				// which lets the instantiation patterns see through the ite terms of merged paths
+				conds := splitConds(o.goal, o.hyp)
+				var plans [][]*Term
+				for _, c := range conds {
+					plans = append(plans, []*Term{c})
+				}
+				if len(conds) >= 2 {
+					plans = append(plans, conds[:2])
+				}
+				if len(conds) >= 3 {
+					plans = append(plans, conds[:3])
+				}
+				if len(conds) >= 4 {
+					plans = append(plans, conds[:4])
+				}
+				splitStart := time.Now()
+				for _, plan := range plans {
+					if time.Since(splitStart).Seconds() > 3*float64(cfg.TimeoutS) {
+						break
+					}
+					n := 1 << len(plan)
+					q := make([]string, n)
+					qq := make([]string, n)
+					termMu.Lock()
+					for k := 0; k < n; k++ {
+						x.caseSub = map[*Term]*Term{}
+						x.caseAssert = True
+						for b, c := range plan {
+							if k>>b&1 == 0 {
+								x.caseSub[c] = True
+								x.caseAssert = And(x.caseAssert, c)
+							} else {
+								x.caseSub[c] = False
+								x.caseAssert = And(x.caseAssert, Not(c))
+							}
+						}
+						x.instLevel = 2
+						q[k], _, _, _ = x.buildQuery(o, false, false)
+						if nq > 0 {
+							qq[k], _, _, _ = x.buildQuery(o, true, false)
+						}
+					}
+					x.caseSub, x.caseAssert = nil, nil
+					termMu.Unlock()
+					ok := true
+					secs := 0.0
+					be := ""
+					for k := 0; k < n && ok; k++ {
+						rk := solve(fmt.Sprintf("%s.c%d", name, k), q[k], nil, cfg.TimeoutS, false)
+						secs += rk.Secs
+						if rk.Status != "unsat" && nq > 0 {
+							rk = solve(fmt.Sprintf("%s.c%dq", name, k), qq[k], nil, cfg.TimeoutS, false)
+							secs += rk.Secs
+						}
+						ok = rk.Status == "unsat"
+						be = rk.Backend
+						if os.Getenv("SCTPVC_DEBUG") != "" {
+							fmt.Fprintf(os.Stderr, "SPLIT %s plan=%d case=%d -> %s (%.1fs) %s\n", name, len(plan), k, rk.Status, rk.Secs, truncate(rk.Output, 300))
+							for _, c := range plan {
+								fmt.Fprintf(os.Stderr, "   cond %s\n", c.Short())
+							}
+						}
+					}
+					if ok {
+						r = SolveResult{Status: "unsat", Backend: be, Secs: r.Secs + secs}
+						break
+					}
 				}
 			}
 			if o.Smoke && nop > 0 && r.Status == "sat" {
@@ -919,6 +1190,37 @@ func verifyFunction(p *Program, c *Contract, cfg Config, filter func(o *Obl) boo
 			continue
 		}
 		rep.Results = append(rep.Results, r)
+	}
+	// a postcondition proved with the help of a LEMMA clause that is itself not proved is not proved
+	broken := ""
+	for _, cl := range c.Ensures {
+		name := c.Key + ":post#" + cl.Label
+		for _, r := range rep.Results {
+			if r.Name != name {
+				continue
+			}
+			if broken != "" && r.Status == "proved" {
+				r.Status = "unknown"
+				r.Output = "relies on the lemma post#" + broken + ", which is not proved"
+			}
+		}
+		if hasTag(cl.Tags, "LEMMA") && broken == "" {
+			proved := false
+			for _, r := range rep.Results {
+				if r.Name == name && r.Status == "proved" {
+					proved = true
+				}
+			}
+			ran := false
+			for _, r := range rep.Results {
+				if r.Name == name {
+					ran = true
+				}
+			}
+			if ran && !proved {
+				broken = cl.Label
+			}
+		}
 	}
 	return rep
 }
